@@ -220,7 +220,7 @@ class Doc:
         self.root = root
         self.utf8 = utf8
         self.cesu8 = cesu8
-        self.dedupe = dedupe  # identical non-attribute strings share one pool entry
+        self.dedupe = dedupe  # identical non-attribute strings share one pool entry (prefix/uri of namespace chunks always do)
         self.with_resmap = with_resmap
         self.extra_strings = list(extra_strings)  # unused strings appended to the pool
         self.extra_resmap_ids = list(extra_resmap_ids)  # [(name, id)] unused attribute names with ids, placed first like aapt does
@@ -263,10 +263,10 @@ def build(doc):
             resmap.append(rid)
         assert len(resmap) == len(pool.strings)
 
-    def sref(s):
+    def sref(s, force_dedupe=False):
         if s is None:
             return NO_REF
-        if doc.dedupe:
+        if doc.dedupe or force_dedupe:
             # never reuse an index inside the resource map range for a plain string
             if s in pool._index:
                 return pool._index[s]
@@ -287,7 +287,7 @@ def build(doc):
 
     def emit(e):
         for (prefix, uri) in e.nsdecls:
-            node(RES_XML_START_NAMESPACE_TYPE, e.line, None, struct.pack("<II", sref(prefix), sref(uri)))
+            node(RES_XML_START_NAMESPACE_TYPE, e.line, None, struct.pack("<II", sref(prefix, True), sref(uri, True)))
         attrs = list(e.attrs)
         if doc.sorted_attrs:
             attrs.sort(key=lambda a: (a.resid is None, a.resid or 0))
@@ -309,7 +309,7 @@ def build(doc):
                 node(RES_XML_CDATA_TYPE, c.line, None, struct.pack("<I", sref(c.text)) + res_value(TYPE_NULL, 0))
         node(RES_XML_END_ELEMENT_TYPE, e.line, None, struct.pack("<II", sref(e.ns), sref(e.name)))
         for (prefix, uri) in reversed(e.nsdecls):
-            node(RES_XML_END_NAMESPACE_TYPE, e.line, None, struct.pack("<II", sref(prefix), sref(uri)))
+            node(RES_XML_END_NAMESPACE_TYPE, e.line, None, struct.pack("<II", sref(prefix, True), sref(uri, True)))
 
     emit(doc.root)
     for s in doc.extra_strings:
